@@ -16,7 +16,9 @@
 #                  ... return m / return b"".join(m) / return <bytes>   - all three styles give the SAME item list
 #   bytes          cls._encode_message_header(cid, corr, key[, api_version=v]), struct.pack(">fmt", e, ..),
 #                  struct.pack(">f%sf" % len(x), len(x), *x), write_short_ascii/text/bytes(e), write_int_string(e),
-#                  a bytes parameter, `a + b`, b"".join([..])
+#                  a bytes parameter, `a + b`, b"".join([..]); a local holding such a value (`header = cls._encode_..`)
+#                  provided it is appended before anything computed after it (evaluation order = append order)
+#   message sets   x = KafkaCodec._encode_message_set(<msgs>, magic=<e>)  binds the rest of the block (ILetMsgSet)
 #   loops          for x in <list expr>;  for k, v in <dict expr>.items();  for k in <dict expr>  (body: the same forms)
 # Adjacent struct.pack items are merged (struct.pack(">ab", x, y) == struct.pack(">a", x) + struct.pack(">b", y), also
 # in which inputs raise struct.error).
@@ -69,8 +71,19 @@ class Encoder:
         for i, a in enumerate(args.args[1:]):
             self.env[a.arg] = ("ex", ("var", i), "dict" if is_dict_annotation(a.annotation) else "any")
         self.level = len(self.params)
-        self.acc = None         # (name, "bytes" | "list")
+        self.acc = None         # (name, "bytes" | "list"), decided by what the function returns
+        self.acc_started = False
+        self.pending = []       # bytes-valued locals computed but not yet appended, in order of computation
         self.done = False
+        for st in fn.body:
+            if isinstance(st, ast.Return) and st.value is not None:
+                v = st.value
+                if isinstance(v, ast.Name) and v.id not in self.params:
+                    self.acc = (v.id, "bytes")
+                elif isinstance(v, ast.Call) and isinstance(v.func, ast.Attribute) and v.func.attr == "join" \
+                        and isinstance(v.func.value, ast.Constant) and v.func.value.value == b"" and len(v.args) == 1 \
+                        and isinstance(v.args[0], ast.Name):
+                    self.acc = (v.args[0].id, "list")
 
     # ---------------------------------------------------------------- pure expressions
     def pure(self, e):
@@ -106,7 +119,16 @@ class Encoder:
         if isinstance(e, ast.Name):
             b = self.env.get(e.id)
             if b is not None and b[0] == "ex":
+                self.no_pending(e)
                 return [("raw", b[1])]
+            if b is not None and b[0] == "bytes":
+                # a bytes local: it was COMPUTED where it was assigned; appending it here keeps the order of
+                # evaluation only if nothing else was computed in between
+                if not self.pending or self.pending[0] != e.id:
+                    refuse(e, "bytes local %r is not the oldest value still to be appended" % e.id)
+                self.pending.pop(0)
+                del self.env[e.id]
+                return b[1]
             refuse(e, "name %r used as bytes" % e.id)
         if isinstance(e, ast.Call):
             f = e.func
@@ -121,15 +143,33 @@ class Encoder:
                     and f.value.id in (self.self_name, self.class_name):
                 if len(e.args) not in (3, 4) or any(k.arg != "api_version" for k in e.keywords) or len(e.args) + len(e.keywords) > 4:
                     refuse(e, "header call shape")
+                self.no_pending(e)
                 xs = [self.pure(a)[0] for a in e.args]
                 ver = xs[3] if len(xs) == 4 else (self.pure(e.keywords[0].value)[0] if e.keywords else ("const", 0))
                 return [("header", xs[0], xs[1], xs[2], ver)]
             if isinstance(f, ast.Attribute) and f.attr == "pack" and isinstance(f.value, ast.Name) and f.value.id == "struct" \
                     and not e.keywords and e.args:
+                self.no_pending(e)
                 return [self.pack(e)]
             if isinstance(f, ast.Name) and f.id in WRITERS and len(e.args) == 1 and not e.keywords:
+                self.no_pending(e)
                 return [(WRITERS[f.id], self.pure(e.args[0])[0])]
         refuse(e, "bytes expression " + type(e).__name__)
+
+    def looks_like_bytes(self, v):
+        if isinstance(v, ast.BinOp) and isinstance(v.op, ast.Add):
+            return self.looks_like_bytes(v.left) or self.looks_like_bytes(v.right)
+        if isinstance(v, ast.Call):
+            f = v.func
+            if isinstance(f, ast.Attribute) and f.attr in ("_encode_message_header", "pack", "join"):
+                return True
+            if isinstance(f, ast.Name) and f.id in WRITERS:
+                return True
+        return False
+
+    def no_pending(self, node):
+        if self.pending:
+            refuse(node, "bytes local %r computed earlier is appended later than a value computed after it" % self.pending[0])
 
     def pack(self, e):
         fmt, args = e.args[0], e.args[1:]
@@ -201,8 +241,35 @@ class Encoder:
             else:
                 out.append(it)
 
+    def msgset_call(self, st):
+        """x = KafkaCodec._encode_message_set(msgs, magic=m)  ->  (x, msgs expr, magic expr) or None"""
+        if not (isinstance(st, ast.Assign) and len(st.targets) == 1 and isinstance(st.targets[0], ast.Name)):
+            return None
+        v = st.value
+        if not (isinstance(v, ast.Call) and isinstance(v.func, ast.Attribute) and v.func.attr == "_encode_message_set"
+                and isinstance(v.func.value, ast.Name) and v.func.value.id in (self.class_name, self.self_name)):
+            return None
+        if len(v.args) != 1 or len(v.keywords) != 1 or v.keywords[0].arg != "magic":
+            refuse(st, "_encode_message_set call shape (offset given?)")
+        return st.targets[0].id, self.pure(v.args[0])[0], self.pure(v.keywords[0].value)[0]
+
     def block(self, stmts, out, top):
-        for st in stmts:
+        for idx, st in enumerate(stmts):
+            ms = self.msgset_call(st)
+            if ms is not None:
+                # the rest of the block runs with the encoded set bound to a new level
+                self.no_pending(st)
+                name, msgs, magic = ms
+                if name in self.params or (self.acc and name == self.acc[0]):
+                    refuse(st, "message set assigned to a parameter or the accumulator")
+                saved, lvl = dict(self.env), self.level
+                self.env[name] = ("ex", ("var", lvl), "any")
+                self.level = lvl + 1
+                body = []
+                self.block(stmts[idx + 1:], body, top)
+                self.level, self.env = lvl, saved
+                out.append(("letms", msgs, magic, body))
+                return
             if self.done:
                 refuse(st, "statement after return")
             if isinstance(st, ast.Expr) and isinstance(st.value, ast.Constant) and isinstance(st.value.value, str):
@@ -219,20 +286,19 @@ class Encoder:
                 if not top:
                     refuse(st, "return inside a loop")
                 v = st.value
-                if self.acc and isinstance(v, ast.Name) and v.id == self.acc[0] and self.acc[1] == "bytes":
-                    pass
-                elif self.acc and self.acc[1] == "list" and isinstance(v, ast.Call) and isinstance(v.func, ast.Attribute) \
-                        and v.func.attr == "join" and isinstance(v.func.value, ast.Constant) and v.func.value.value == b"" \
-                        and len(v.args) == 1 and isinstance(v.args[0], ast.Name) and v.args[0].id == self.acc[0]:
-                    pass
-                elif self.acc is None and v is not None:
+                if self.acc is not None:
+                    if not self.acc_started:
+                        refuse(st, "the returned name was never assigned")
+                elif v is not None:
                     self.emit(out, self.bytes_items(v))
                 else:
-                    refuse(st, "return value is not the accumulator")
+                    refuse(st, "bare return")
+                if self.pending:
+                    refuse(st, "bytes local %r is computed but never appended" % self.pending[0])
                 self.done = True
                 continue
             if isinstance(st, ast.AugAssign) and isinstance(st.op, ast.Add) and isinstance(st.target, ast.Name) \
-                    and self.acc and st.target.id == self.acc[0]:
+                    and self.acc and st.target.id == self.acc[0] and self.acc_started:
                 if self.acc[1] == "bytes":
                     self.emit(out, self.bytes_items(st.value))
                 elif isinstance(st.value, (ast.List, ast.Tuple)):
@@ -243,7 +309,7 @@ class Encoder:
                 continue
             if isinstance(st, ast.Expr) and isinstance(st.value, ast.Call) and isinstance(st.value.func, ast.Attribute) \
                     and isinstance(st.value.func.value, ast.Name) and self.acc and st.value.func.value.id == self.acc[0] \
-                    and self.acc[1] == "list" and not st.value.keywords and len(st.value.args) == 1:
+                    and self.acc[1] == "list" and self.acc_started and not st.value.keywords and len(st.value.args) == 1:
                 if st.value.func.attr == "append":
                     self.emit(out, self.bytes_items(st.value.args[0]))
                     continue
@@ -253,27 +319,30 @@ class Encoder:
                     continue
             if isinstance(st, ast.Assign) and len(st.targets) == 1 and isinstance(st.targets[0], ast.Name):
                 name, v = st.targets[0].id, st.value
-                if self.acc is None and top and name not in self.params:
-                    # the first bytes / list-of-bytes assignment starts the accumulator
-                    if isinstance(v, (ast.List, ast.Tuple)):
-                        items = []
-                        for x in v.elts:
-                            self.emit(items, self.bytes_items(x))
-                        self.acc = (name, "list")
-                        self.emit(out, items)
-                        continue
-                    try:
-                        items = self.bytes_items(v)
-                    except Refused:
-                        items = None
-                    if items is not None and not (isinstance(v, ast.Name)):
-                        self.acc = (name, "bytes")
-                        self.emit(out, items)
-                        continue
-                if self.acc and name == self.acc[0]:
-                    refuse(st, "accumulator assigned twice")
                 if name in self.params:
                     refuse(st, "parameter reassigned")
+                if self.acc and name == self.acc[0]:
+                    if self.acc_started or not top:
+                        refuse(st, "accumulator assigned twice or inside a loop")
+                    self.acc_started = True
+                    if self.acc[1] == "list":
+                        if not isinstance(v, (ast.List, ast.Tuple)):
+                            refuse(st, "list accumulator not started with a list display")
+                        for x in v.elts:
+                            self.emit(out, self.bytes_items(x))
+                    else:
+                        self.emit(out, self.bytes_items(v))
+                    continue
+                if name in self.env and self.env[name][0] == "bytes":
+                    refuse(st, "bytes local assigned twice")
+                if self.looks_like_bytes(v):
+                    if not top:
+                        refuse(st, "bytes local inside a loop")
+                    items = []
+                    self.emit(items, self.bytes_items(v))
+                    self.env[name] = ("bytes", items)
+                    self.pending.append(name)
+                    continue
                 ex, kind = self.pure(v)
                 self.env[name] = ("ex", ex, kind)
                 continue
@@ -367,6 +436,8 @@ def p_item(it, ind):
         return "%s (%s)" % ({"ascii": "IAscii", "text": "IText", "sbytes": "IShortBytes", "istring": "IIntString", "raw": "IRaw"}[k], p_ex(it[1]))
     if k == "for":
         return "IFor (%s)\n%s" % (p_ex(it[1]), p_prog(it[2], ind + 2))
+    if k == "letms":
+        return "ILetMsgSet (%s) (%s)\n%s" % (p_ex(it[1]), p_ex(it[2]), p_prog(it[3], ind + 2))
     raise ValueError(k)
 
 
